@@ -59,7 +59,7 @@ Inductive fty :=
 | TDate (r : option txt_rules) (l : option lpay)
 | TDecimal (r : option txt_rules) (l : option lpay)
 | TTimestamp (l : option lpay)
-| TAny
+| TAny (l : option lpay)
 | TObject (flatten : bool)
 | TOneof (l : option lpay).
 
